@@ -3,6 +3,8 @@
 -/
 import UtreexoVerif.Driver.Arith
 import UtreexoVerif.Driver.Forest
+import UtreexoVerif.Driver.Serial
+import UtreexoVerif.Driver.Partial
 import UtreexoVerif.Driver.ProofOps
 import UtreexoVerif.Driver.ProofUpdate
 import UtreexoVerif.Driver.Alias
@@ -24,6 +26,8 @@ def handleLine (line : String) : M Unit := do
   | "cupdate" :: rest => handleCUpdate line rest
   | "cundo" :: rest => handleCUndo line rest
   | ["cresync"] => count "cresync" line
+  | "pm" :: rest => handlePM line rest
+  | "pd" :: rest => handlePD line rest
   | "pupdate" :: rest => handlePUpdate line rest
   | "pundo" :: rest => handlePUndo line rest
   | "addproof" :: rest => handleAddProof line rest
@@ -34,6 +38,7 @@ def handleLine (line : String) : M Unit := do
   | "alias" :: rest => handleAlias line rest
   | "later" :: rest => handleLater line rest
   | "aliasinfo" :: rest => handleAliasInfo line rest
+  | "ser" :: rest => handleSer line rest
   | ["enc", tag, res] => count ("enc:" ++ tag) line (res == "accepted")
   | "session" :: _ => pure ()   -- start-of-scenario marker (bin/check cuts replay excerpts there)
   | "conc" :: rest => handleConc line rest
